@@ -6,7 +6,8 @@ set -u
 prop="$1"; tier="${2:-${VERIF_TIER:-quick}}"
 bindir="${VERIF_BIN:-$VERIF_HOME/bin}"
 case "$prop" in
-  C15|C16) flavour=race; bin="$bindir/verif-race" ;;
+  C15) flavour=race-yield; bin="$bindir/verif-race-yield" ;;
+  C16) flavour=race-yield; bin="$bindir/verif-race-yield" ;;
   *)       flavour=plain; bin="$bindir/verif" ;;
 esac
 "$VERIF_HOME/scripts/build.sh" "$flavour" || exit 2
